@@ -73,22 +73,22 @@ TABLE = [
     ("tls_extensions::parse_tls_extension_encrypted_server_name", ext_content(0xffce), ["C05"]),
     ("tls_ec::parse_named_groups", G.named_groups_whole, ["C05"]),
     # single-purpose (tag) parsers: name -> IANA type
-    ("tls_extensions::parse_tls_extension_sni", G.tagged(0), ["C05"]),
-    ("tls_extensions::parse_tls_extension_max_fragment_length", G.tagged(1), ["C05"]),
-    ("tls_extensions::parse_tls_extension_status_request", G.tagged(5), ["C05"]),
-    ("tls_extensions::parse_tls_extension_elliptic_curves", G.tagged(10), ["C05"]),
-    ("tls_extensions::parse_tls_extension_ec_point_formats", G.tagged(11), ["C05"]),
-    ("tls_extensions::parse_tls_extension_signature_algorithms", G.tagged(13), ["C05"]),
-    ("tls_extensions::parse_tls_extension_heartbeat", G.tagged(15, 1), ["C05"]),
-    ("tls_extensions::parse_tls_extension_encrypt_then_mac", G.tagged(22), ["C05"]),
-    ("tls_extensions::parse_tls_extension_extended_master_secret", G.tagged(23), ["C05"]),
-    ("tls_extensions::parse_tls_extension_session_ticket", G.tagged(35), ["C05"]),
-    ("tls_extensions::parse_tls_extension_pre_shared_key", G.tagged(41), ["C05"]),
-    ("tls_extensions::parse_tls_extension_early_data", G.tagged(42), ["C05"]),
-    ("tls_extensions::parse_tls_extension_supported_versions", G.tagged(43), ["C05"]),
-    ("tls_extensions::parse_tls_extension_cookie", G.tagged(44), ["C05"]),
-    ("tls_extensions::parse_tls_extension_psk_key_exchange_modes", G.tagged(45), ["C05"]),
-    ("tls_extensions::parse_tls_extension_key_share", G.tagged(51), ["C05"]),
+    ("tls_extensions::parse_tls_extension_sni", G.tagged(0), ["C05", "C06"]),
+    ("tls_extensions::parse_tls_extension_max_fragment_length", G.tagged(1), ["C05", "C06"]),
+    ("tls_extensions::parse_tls_extension_status_request", G.tagged(5), ["C05", "C06"]),
+    ("tls_extensions::parse_tls_extension_elliptic_curves", G.tagged(10), ["C05", "C06"]),
+    ("tls_extensions::parse_tls_extension_ec_point_formats", G.tagged(11), ["C05", "C06"]),
+    ("tls_extensions::parse_tls_extension_signature_algorithms", G.tagged(13), ["C05", "C06"]),
+    ("tls_extensions::parse_tls_extension_heartbeat", G.tagged(15, 1), ["C05", "C06"]),
+    ("tls_extensions::parse_tls_extension_encrypt_then_mac", G.tagged(22), ["C05", "C06"]),
+    ("tls_extensions::parse_tls_extension_extended_master_secret", G.tagged(23), ["C05", "C06"]),
+    ("tls_extensions::parse_tls_extension_session_ticket", G.tagged(35), ["C05", "C06"]),
+    ("tls_extensions::parse_tls_extension_pre_shared_key", G.tagged(41), ["C05", "C06"]),
+    ("tls_extensions::parse_tls_extension_early_data", G.tagged(42), ["C05", "C06"]),
+    ("tls_extensions::parse_tls_extension_supported_versions", G.tagged(43), ["C05", "C06"]),
+    ("tls_extensions::parse_tls_extension_cookie", G.tagged(44), ["C05", "C06"]),
+    ("tls_extensions::parse_tls_extension_psk_key_exchange_modes", G.tagged(45), ["C05", "C06"]),
+    ("tls_extensions::parse_tls_extension_key_share", G.tagged(51), ["C05", "C06"]),
     # DTLS
     ("dtls::parse_dtls_record_header", G.dtls_header, ["C10"]),
     ("dtls::parse_dtls_plaintext_record", G.dtls_record, ["C10", "C06"]),
